@@ -75,3 +75,30 @@ pub fn fail(args: &[BytecodePrimitive]) -> FFIReturnValue {
     let message = format!("probe-fail:{r}");
     raise_error!(message)
 }
+
+/// failmsg -> raise_error!(the first argument, a str, VERBATIM: may be empty or have several lines)
+#[no_mangle]
+pub fn failmsg(args: &[BytecodePrimitive]) -> FFIReturnValue {
+    let r = render(args);
+    log("failmsg", &r);
+    let message = match args.first() {
+        Some(BytecodePrimitive::Str(s)) => s.to_string(),
+        _ => String::new(),
+    };
+    raise_error!(message)
+}
+
+/// failif2 -> Value(Int(2 * x)) for an int argument x, except x == 2: raise_error!("probe-failif:2")
+#[no_mangle]
+pub fn failif2(args: &[BytecodePrimitive]) -> FFIReturnValue {
+    let r = render(args);
+    log("failif2", &r);
+    match args.first() {
+        Some(BytecodePrimitive::Int(2)) => {
+            let message = "probe-failif:2".to_string();
+            raise_error!(message)
+        }
+        Some(BytecodePrimitive::Int(x)) => FFIReturnValue::Value(BytecodePrimitive::Int(2 * x)),
+        _ => FFIReturnValue::NoValue,
+    }
+}
